@@ -208,6 +208,21 @@ HouseBasis(v, u) ==
 ProjCols(Q, js) == IF js = <<>> THEN MZero(MRows(Q), MRows(Q))
                    ELSE LET S == Cols(Q, js) IN XMul(S, XHerm(S))
 
+(* Structured bases.  Every routine that takes a BASIS of a subspace (Projection, calcProjectionMatrix, the three
+   chordal-distance routines, calc_principal_angles) must return a result that depends on the SUBSPACE only.  Each
+   case therefore names the forms in which its bases are offered besides the matrix as built:
+     "colscaled"   A D with an individual non-zero factor per column (exact: ColScale, the factors are Gaussian
+                   integers of modulus 1..2; the law is checked exactly by TLC: ProjBasisLaw / ChordBasisFormLaw),
+     "unitnorm"    every column divided by its norm (unit-norm columns that are NOT orthogonal),
+     "orthonormal" an orthonormal basis of the same subspace,
+   in every combination of the two arguments of a binary routine.  The last two forms have irrational entries; the
+   harness derives them numerically from A - the EXPECTED value stays the one emitted for A, because it is a
+   function of the subspace.                                                                                   *)
+ColFactors == <<Gi(2), Gi(-1), G(0, 1), G(1, 1), G(0, -2), G(1, -1), Gi(1)>>
+ColFactor(id, j) == ColFactors[((id + 3 * j) % Len(ColFactors)) + 1]
+ColScale(id, A) == Fix([i \in 1..MRows(A) |-> [j \in 1..MCols(A) |-> GMul(A[i][j], ColFactor(id, j))]])
+BasisForms == {"asbuilt", "colscaled", "unitnorm", "orthonormal"}
+
 None == [kind |-> "none"]
 Init == kase = None
 
@@ -231,6 +246,7 @@ ProjRecP(id, A, M, p) ==
                  \* 2^12 and unit diagonal below (det = 2^12 # 0, columns nearly parallel, cond ~ 1e4)
                  Till == Fix([i \in 1..n |-> [j \in 1..n |-> IF i = 1 THEN Gi(4096) ELSE IF i = j THEN GOne ELSE GZero]])
              IN [valid |-> TRUE, kind |-> "proj", id |-> id, A |-> A, M |-> M, den |-> p.den, sc |-> ScaleOf(id), pw |-> ScalePower("proj"),
+                 AD |-> ColScale(id, A), forms |-> BasisForms,
                  AI |-> IF n >= 2 THEN XMul(A, Till) ELSE <<>>, detTill |-> Till[1][1][1],     \* det of the upper triangular Till = product of its diagonal = 2^12
                  num |-> p.num, onum |-> oN, rnum |-> rN,
                  PM |-> XMul(p.num, M), oPM |-> XMul(oN, M), RM |-> XMul(rN, M)]
@@ -285,6 +301,10 @@ ReflectTwice      == IsProj => /\ XMul(kase.rnum, kase.rnum) = IDiag(MRows(kase.
 ProjRank          == IsProj => MTrace(kase.num) = Gi(MCols(kase.A) * kase.den)
 ProjSplits        == IsProj => XAdd(kase.PM, kase.oPM) = IScale(kase.den, kase.M)
 \* homogeneity, exactly for k = 2: the projector of 2A is the projector of A
+\* the projector depends on the subspace only: rescaling the columns individually does not change it
+ProjBasisLaw      == IsProj /\ Kind # "projq" /\ MCols(kase.A) <= 3 /\ MRows(kase.A) <= 6 =>
+                               LET pd == ProjND(kase.AD)
+                               IN  pd.den > 0 /\ IScale(pd.den, kase.num) = IScale(kase.den, pd.num) /\ kase.forms = BasisForms
 ProjScaleLaw      == IsProj /\ Kind # "projq" /\ MCols(kase.A) <= 3 /\ MRows(kase.A) <= 6 => LET p2 == ProjND(IScale(2, kase.A))
                                IN  IScale(p2.den, kase.num) = IScale(kase.den, p2.num) /\ kase.detTill # 0
 
@@ -370,6 +390,9 @@ ChordRec(id) ==
                  Till == Fix([i \in 1..n |-> [j \in 1..n |-> IF i = 1 THEN Gi(4096) ELSE IF i = j THEN GOne ELSE GZero]])
              IN [valid |-> TRUE, kind |-> "chord", id |-> id, n |-> n, A |-> A, B |-> B, T |-> T, sc |-> ScaleOf(id),
                  AI |-> IF n >= 2 THEN XMul(A, Till) ELSE <<>>,          \* nearly dependent basis of span(A)
+                 AD |-> ColScale(id, A), BD |-> ColScale(id + 1, B), forms |-> BasisForms,
+                 d2ad |-> D2Trace(ProjND(ColScale(id, A)), pb, n),       \* columns of A rescaled individually
+                 d2bd |-> D2Trace(pa, ProjND(ColScale(id + 1, B)), n),
                  AT |-> AT, UA |-> UA, UB |-> UB, HA |-> XMul(Rh, A), HB |-> XMul(Rh, B), Rh |-> Rh, hnu |-> nu,
                  \* product of the squared cosines of the principal angles = |det(A^H B)|^2 / (det A^H A det B^H B)
                  cos2prod |-> RNorm(GAbs2(dAB)[1], pa.den * pb.den),
@@ -397,6 +420,8 @@ ChordHouseholderIsUnitary == IsChord => /\ kase.Rh = XHerm(kase.Rh)
 ChordAngles          == IsChord => /\ RLe(RZero, kase.cos2prod) /\ RLe(kase.cos2prod, ROne)
                                    /\ (kase.n = 1 => kase.cos2prod = kase.cos2sum)
                                    /\ (kase.d2 = RZero => kase.cos2prod = ROne)
+\* the distance depends on the two subspaces only (columns rescaled individually)
+ChordBasisFormLaw    == IsChord => kase.d2ad = kase.d2 /\ kase.d2bd = kase.d2 /\ kase.forms = BasisForms
 ChordRange           == IsChord => RLe(RZero, kase.d2)
                                    /\ RLe(kase.d2, R(Min(kase.n, MRows(kase.A) - kase.n)))
 
@@ -438,7 +463,9 @@ ChordXRec(id) ==
                  Rh == XSub(IDiag(m, nu), IScale(2, XMul(v, XHerm(v))))
                  pat == ProjND(AT)
                  pbt == ProjND(BT)
-             IN [valid |-> TRUE, kind |-> "chordx", id |-> id, sc |-> ScaleOf(id), rows |-> m, n1 |-> n1, n2 |-> n2, nested |-> nested,
+             IN [valid |-> TRUE, kind |-> "chordx", id |-> id, sc |-> ScaleOf(id), rows |-> m,
+                 AD |-> ColScale(id, A), BD |-> ColScale(id + 1, B), forms |-> BasisForms,
+                 d2ad |-> D2TraceG(ProjND(ColScale(id, A)), pb, n1, n2), d2bd |-> D2TraceG(pa, ProjND(ColScale(id + 1, B)), n1, n2), n1 |-> n1, n2 |-> n2, nested |-> nested,
                  A |-> A, B |-> B, AT |-> AT, BT |-> BT, UA |-> UA, UB |-> UB, HA |-> XMul(Rh, A), HB |-> XMul(Rh, B),
                  Rh |-> Rh, hnu |-> nu,
                  d2 |-> D2Frob(pa, pb),                               \* the definition
@@ -462,6 +489,7 @@ ChordXSymmetric       == IsChordX => kase.d2ba = kase.d2
 ChordXBasisInvariant  == IsChordX => kase.d2atb = kase.d2 /\ kase.d2abt = kase.d2
 ChordXUnitaryInvariant == IsChordX => /\ kase.d2u = kase.d2
                                       /\ XMul(kase.Rh, kase.Rh) = IDiag(kase.rows, kase.hnu * kase.hnu)
+ChordXBasisFormLaw    == IsChordX => kase.d2ad = kase.d2 /\ kase.d2bd = kase.d2 /\ kase.forms = BasisForms
 ChordXRange           == IsChordX => LET lowest == <<Abs1(kase.n1 - kase.n2), 2>> IN
                             /\ RLe(RNorm(lowest[1], 2), kase.d2)
                             /\ RLe(kase.d2, RNorm(kase.n1 + kase.n2, 2))
